@@ -66,6 +66,24 @@ DONE = {
               "bounds; MBT vectors (exhaustive small, simulated large, all 65536 header byte pairs) are replayed against "
               "pfb.Decode and recorded per-Read traces are validated by TLC (TracePFB)."),
         ref="6.9, 11 C14", tech="explicit TLA+ specification + refinement check with TLC, model-based test replay and trace validation"),
+    "C09": dict(
+        text=("RoundTrip.tla defines Equiv9 on projected fonts; the harness generates fonts along the axes the property "
+              "names, writes each in the four formats, reads it back and records the projected pair as a trace event; TLC "
+              "validates every event against Equiv9 (TraceRoundTrip) and names the rejected ones. The specification is a "
+              "relation over recorded histories; the strength comes from the generator axes."),
+        ref="6.7, 11 C09, 13", tech="explicit TLA+ relation, trace validation of write/read histories with TLC"),
+    "C15": dict(
+        text=("AFMFormat.tla (line machine, used as independent reader) and AFMCycle.tla (EquivAFM, QuantAFM, second-cycle "
+              "identity on exact float64 values); TLC generates model metrics and layouts (MBT both through Metrics.Write "
+              "and through an independent writer), validates what Metrics.Write emits line by line, and validates "
+              "Read/(Write,Read)^2 histories of accepted inputs."),
+        ref="6.7, 11 C15", tech=TECH_MBT + " + trace validation"),
+    "C19": dict(
+        text=("FontQuery.tla defines GlyphList as a relation and NumGlyphs, glyph / font boxes (plain and PDF), PDF widths "
+              "exactly; TLC enumerates small fonts and metrics (glyph sets, encodings incl. non-injective, command lists on a "
+              "grid, axis-aligned matrices) with the prescribed answers; the harness calls every query method of type1.Font "
+              "and afm.Metrics and compares."),
+        ref="6.11, 11 C19", tech=TECH_MBT),
     "C11": dict(
         text=("Budget: PSMachine counts operations exactly as the library; TLC checks BudgetTransparent on the lock-step "
               "product of a budgeted and an unbudgeted run for every program x budget and the behaviours are replayed with "
